@@ -97,7 +97,8 @@ def mc_cases(draw, tier):
     c = dict(op=op, seed=draw(st.integers(0, 10**6)))
     if op == "softmax":
         c.update(width=draw(st.sampled_from([16, 4096, 17, 1000]) | st.floats(math.log(16), math.log(4096)).map(lambda v: int(round(math.exp(v))))),
-                 mult=draw(st.sampled_from([1 / 8, 4.0, 1.0]) | logmult(1 / 8, 4)))
+                 mult=draw(st.sampled_from([1 / 8, 4.0, 1.0]) | logmult(1 / 8, 4)),
+                 layout=draw(st.sampled_from(["last", "last", "first", "middle"])))
     elif op == "attention":
         c.update(seq=draw(st.sampled_from([16, 1024, 48]) | st.floats(math.log(16), math.log(1024)).map(lambda v: int(round(math.exp(v))))),
                  d=draw(st.sampled_from([16, 64, 128]) | st.integers(16, 128)), mult=draw(st.sampled_from([0.25, 16.0, 1.0]) | logmult(0.25, 16)),
@@ -121,10 +122,20 @@ def run_mc(c) -> CaseResult:
     try:
         if op == "softmax":
             W, m = c["width"], c["mult"]
-            x = torch.randn(max(1, N // W), W, generator=g).requires_grad_()
-            y = U.softmax(x, dim=-1, mult=m, constraint=None)
+            rows = max(1, N // W)
+            lay = c.get("layout", "last")
+            if lay == "last":
+                shape, dim = (rows, W), -1
+            elif lay == "first":
+                shape, dim = (W, rows), 0
+            else:
+                r1 = max(1, int(round(rows ** 0.5)))
+                shape, dim = (r1, W, max(1, rows // r1)), -2
+            x = torch.randn(shape, generator=g).requires_grad_()
+            y = U.softmax(x, dim=dim, mult=m, constraint=None)
             y.backward(torch.randn(y.shape, generator=g))
-            info = f"(width={W}, mult={m})"
+            info = f"(width={W}, mult={m}, shape={shape}, dim={dim})"
+            res.labels.append(f"softmax-dim={dim}")
             band(res, "softmax.out", rms(y), 0.55, 1.35, info=info)
             band(res, "softmax.grad_input", rms(x.grad), 0.55, 1.35, info=info)
             res.nontrivial = m not in (0.25, 1.0, 4.0) or W not in (256,)
